@@ -19,6 +19,7 @@ func init() {
 		NotDecided: "retry-go's own semantics (trusted: RetryIf(f) retries only when f(err); Attempts(n>0) bounds the calls; Attempts(0) would be unbounded).",
 		Run:        runC15})
 	addSelfTests("C14",
+		mutation{"mapper-suffix-match", "spec/chord/errors.go", "	return parsedErr\n}", "	for str, mapped := range errorStrMap {\n		if len(srcErr) > len(str) && srcErr[len(srcErr)-len(str):] == str {\n			return mapped\n		}\n	}\n	return parsedErr\n}", "mapper"},
 		mutation{"mapper-by-code", "spec/chord/errors.go", "	if twirpErr, ok := err.(twirp.Error); ok {\n		srcErr = twirpErr.Msg()\n	}", "	if twirpErr, ok := err.(twirp.Error); ok && twirpErr.Code() == twirp.Internal {\n		srcErr = twirpErr.Msg()\n	}", "mapper"},
 		mutation{"remote-unmapped", "chord/remote.go", "	_, err := n.chordClient.FinishJoin(reqCtx, &protocol.MembershipConclusionRequest{\n		Stabilize: stabilize,\n		Release:   release,\n	})\n\n	return chord.ErrorMapper(err)", "	_, err := n.chordClient.FinishJoin(reqCtx, &protocol.MembershipConclusionRequest{\n		Stabilize: stabilize,\n		Release:   release,\n	})\n\n	return err", "remote-mapped"},
 		mutation{"wrap-custom-message", "spec/rpc/error.go", "func WrapError(err error) error {\n	var code twirp.ErrorCode\n	if chord.ErrorIsRetryable(err) {\n		code = twirp.FailedPrecondition\n	} else {\n		code = twirp.Internal\n	}\n	twerr := twirp.NewError(code, err.Error())", "func WrapError(err error) error {\n	var code twirp.ErrorCode\n	if chord.ErrorIsRetryable(err) {\n		code = twirp.FailedPrecondition\n	} else {\n		code = twirp.Internal\n	}\n	twerr := twirp.NewError(code, \"chord: \"+err.Error())", "wrap-message"},
@@ -266,6 +267,38 @@ func runC14(c *Ctx) {
 		if bad == 0 {
 			c.Ob("mapper", "ErrorMapper#lookup-on-every-path", lookups[0].Pos(), true, "every non-nil error is looked up in errorStrMap before being returned")
 		}
+		// nothing but the exact-key lookup turns an error into a known one: every value
+		// ErrorMapper returns is its argument (unknown errors pass through unchanged and
+		// stay non-retryable) or the value of an errorStrMap[key] lookup - no ranging over
+		// the map, no suffix/substring matching, no re-wrapping of a sentinel
+		nret := 0
+		for _, r := range em.Returns() {
+			if len(r.Results) != 1 {
+				continue
+			}
+			nret++
+			okSrc := true
+			why := ""
+			for _, alt := range splitAlts(em.Prov(r.Results[0])) {
+				switch {
+				case alt == "param#0":
+				case strings.HasPrefix(alt, "global:spec/chord.errorStrMap["):
+				default:
+					okSrc = false
+					why = alt
+				}
+			}
+			c.Ob("mapper", "ErrorMapper#result-is-the-argument-or-an-exact-lookup", r.Pos(), okSrc, "the mapper returns its argument or errorStrMap[key] and nothing else (a looser match - suffix, substring, re-wrapping - makes an unknown error whose text merely resembles a known one retryable at the caller); found "+why)
+		}
+		c.Floor("ErrorMapper returns", nret, 1)
+		var rangesMap token.Pos
+		ast.Inspect(em.Body, func(n ast.Node) bool {
+			if rs, ok := n.(*ast.RangeStmt); ok && em.Prov(rs.X) == "global:spec/chord.errorStrMap" {
+				rangesMap = rs.Pos()
+			}
+			return true
+		})
+		c.Ob("mapper", "ErrorMapper#no-scan-of-the-table", rangesMap, !rangesMap.IsValid(), "errorStrMap is consulted by key only, never iterated to find a near match")
 		// the lookup key: err.Error(), replaced by Msg() for every twirp.Error (no code filter)
 		for _, l := range lookups {
 			ix := l.(*ast.IndexExpr)
@@ -615,4 +648,25 @@ func retrySibling(fn *Fn, m string) (bool, string) {
 		}
 	}
 	return true, "ok"
+}
+
+// splitAlts splits a provenance string at its top-level "|" (alternatives inside an index
+// or call argument list stay together).
+func splitAlts(pv string) []string {
+	var out []string
+	depth, start := 0, 0
+	for i, r := range pv {
+		switch r {
+		case '[', '(':
+			depth++
+		case ']', ')':
+			depth--
+		case '|':
+			if depth == 0 {
+				out = append(out, pv[start:i])
+				start = i + 1
+			}
+		}
+	}
+	return append(out, pv[start:])
 }
